@@ -193,7 +193,7 @@ func Schema(r *core.Rand, o *GenOpts) []*m.Item {
 		}
 		g.add(it)
 	}
-	valuePools := [][]string{{"RED", "GREEN", "BLUE"}, {"NORTH", "SOUTH", "north"}, {"A", "B", "C", "D"}, {"ON", "OFF"}, {"on", "query", "fragment", "type"}}
+	valuePools := [][]string{{"RED", "GREEN", "BLUE"}, {"NORTH", "SOUTH", "north"}, {"A", "B", "C", "D"}, {"ON", "OFF"}, {"on", "query", "fragment", "type"}, {"TRUE", "False", "Null", "nULL"}, {"True", "FALSE", "NULL", "truE"}}
 	for _, e := range g.enums {
 		it := &m.Item{Kind: "enum", Name: e}
 		pool := valuePools[r.Intn(len(valuePools))]
